@@ -45,6 +45,9 @@ CLAIMS = {
  "C08": ("Generated batches of simultaneous tagged connections through one shared configuration (all handlers and policies that keep shared state) on real loopback sockets at several GOMAXPROCS values, each connection compared with what it would get alone; the same workloads under the Go race detector, where any report with a caddy-l4 frame counts. Interleavings are sampled.",
          "The Go race detector (happens-before, only executed accesses) and the OS scheduler; tags in position-coded streams make cross-talk visible at a computable offset.",
          "property-based testing (rapid) of concurrent batches + dynamic race detection"),
+ "C03": ("Generated payloads, chunkings, finish orders (who half-closes first, data after the other side's EOF), peer counts, transports and reset faults through the real proxy handler on loopback TCP / Unix sockets / TLS; every peer and the client are compared byte for byte with what was sent, end-of-stream, handler return, upstream close and file-descriptor restoration are observed with bounded waits.",
+         "Kernel sockets and crypto/tls as transports; disjoint byte alphabets per peer to separate the interleaved client-side stream; bounded waits (10 s) stand for 'eventually'.",
+         "property-based testing (rapid) with generated fault injection; exact-stream oracle"),
 }
 NOT_YET = "check not built yet in this session (planned, see DESIGN.md); not claimed until it is"
 
